@@ -10,6 +10,7 @@ CONSTANT DocMenu <- DMa1
 CONSTANT Lims <- L012
 CONSTANT MaxSteps = 22
 CONSTANT Thin = 1
+CONSTANT KeepRoleHist = FALSE
 CONSTANT PageGap = FALSE
 SPECIFICATION PagedSpec
 INVARIANT TypeOK
